@@ -1909,6 +1909,14 @@ PROBE_WHAT = {
 	'comp:enumerate-index': '`[.. for i, x in enumerate(xs)]` (list / dict comprehension over enumerate): comp/comp_for_enumerate.j2 emits '
 		'`for (auto [i, __iter, __end, x] = std::tuple{0, xs.begin(), xs.end(), *(xs.begin())}; __iter < __end; __iter++, x = *__iter)` — the index `i` '
 		'is never incremented (it is 0 in every iteration), and the last step dereferences end() (an empty list dereferences begin())',
+	'reject:init-block-value': 'a constructor field initialised with a value whose C++ text contains `;` — a list / dict comprehension or a list slice (rendered as '
+		'an immediately invoked lambda block): `self.ys: list[int] = [x + n for x in xs]` — is rejected: Errors.Fatal <- AssertionError in '
+		'CppViewHelper.Initializer.parse (the field assignments are re-parsed from their rendered text with `this->(\\w+) = ([^;]+);`)',
+	'cxx:init-reads-local': 'a constructor that computes a local before assigning a field from it (`t = n * 2; self.k: int = t + 1`): every field assignment is moved into '
+		'the member initialiser list (`A(int n) : k(t + 1) { int t = n * 2; }`), ahead of the statements it depends on: g++ rejects (`t` was not declared)',
+	'comp:range-begin-step': 'a list / dict comprehension over `range(begin, stop[, step])`: comp/comp_for_range.j2 pastes the whole argument text as the size '
+		'(`auto x = 0; x < 1, n; x++`): begin and step are ignored and the loop test is a comma expression (its value is `n`: an endless loop for n != 0); '
+		'only the one-argument form is right',
 	'enumerate:continue-skips-index': '`for i, x in enumerate(xs): if ..: continue; ..`: flow/for/enumerate.j2 emits `int i = 0; for (auto& x : xs) { ..; i++; }` — the '
 		'increment is the LAST statement of the body, a `continue` skips it and the index lags behind (python [65], c++ [45])',
 	'enumerate:index-redeclared': 'two `for i, x in enumerate(..)` loops with the same index name in one function: flow/for/enumerate.j2 declares `int i = 0;` in the '
@@ -2002,6 +2010,25 @@ def probe_program(rng: random.Random, key: str | None = None) -> tuple[str, dict
 			f'\txs = [{e1}, {e2}, {a}, {b}]\n\tys = [x + i * {k} for i, x in enumerate(xs)]\n\treturn ys[1] + ys[2] * 3 + ys[3]\n',
 			f'\txs = [{e1}, {e2}, {a}]\n\tt = 0\n\tfor y in [i + {k} for i, x in enumerate(xs)]:\n\t\tt = t * 10 + y\n\treturn t\n',
 			f'\txs = [{e1}, {e2}, {a}]\n\td = {{i: x for i, x in enumerate(xs)}}\n\treturn len(d) * 1000 + d[0]\n',
+		])
+	elif key in ('reject:init-block-value', 'cxx:init-reads-local'):
+		if key == 'reject:init-block-value':
+			fty, val = rng.choice([('list[int]', f'[x + n * {rng.randint(1, 3)} for x in xs]'), ('list[int]', f'[x for x in xs if x > n]'), ('list[int]', f'xs[1:{rng.randint(2, 3)}]'),
+				('dict[int, int]', f'{{x: x + n for x in xs}}')])
+			init = f'\t\tself.n: int = n\n\t\tself.ys: {fty} = {val}\n'
+			fields = f'\tn: int\n\tys: {fty}\n'
+			use = 'len(o.ys) * 100 + o.n'
+		else:
+			init = f'\t\tt = n * {rng.randint(2, 5)} + {rng.randint(0, 9)}\n\t\tself.k: int = t + {rng.randint(1, 9)}\n\t\tself.n: int = n\n'
+			fields = '\tk: int\n\tn: int\n'
+			use = 'o.k * 10 + o.n'
+		pre = f'class Box:\n{fields}\n\tdef __init__(self, n: int, xs: list[int]) -> None:\n{init}\n\n'
+		body = f'\to = Box({a} & 15, [{e1}, {b}, {rng.randint(0, 9)}, {a}])\n\treturn {use}\n'
+	elif key == 'comp:range-begin-step':
+		rargs = rng.choice([f'{rng.randint(1, 3)}, ({a} & 7) + 4', f'0, ({a} & 7) + 2, {rng.randint(2, 3)}', f'{b} & 3, ({a} & 7) + 5', f'1, 9, ({b} & 1) + 1'])
+		body = rng.choice([
+			f'\tys = [x * {rng.randint(1, 4)} + 1 for x in range({rargs})]\n\tt = len(ys) * 1000\n\tfor y in ys:\n\t\tt += y\n\treturn t\n',
+			f'\td = {{x: x + {rng.randint(1, 9)} for x in range({rargs})}}\n\tt = len(d) * 1000\n\tfor k, y in d.items():\n\t\tt += k * y\n\treturn t\n',
 		])
 	elif key == 'enumerate:continue-skips-index':
 		skip = rng.choice([f'x == {a}', f'i == {rng.randint(0, 1)}', f'x > {b}', f'(x + i) % 2 == 0'])
